@@ -46,7 +46,7 @@ def run(ctx):
         for i in range(0, len(cases), step):
             jobs.append(dict(cases=cases[i:i + step], r1cs=r1cs))
     with ThreadPoolExecutor(12) as ex:
-        results = list(ex.map(lambda j: ctx.run_vh(["c06"], j, timeout=3000), jobs))
+        results = list(ex.map(lambda j: ctx.run_vh(["c06"], j, timeout=3000, tags=("g_bits",)), jobs))
     n = 0
     total = sum(len(j["cases"]) for j in jobs)
     for res in results:
@@ -68,7 +68,7 @@ def run(ctx):
 
 def replay(ctx, path):
     case = json.load(open(path))
-    res = ctx.run_vh(["c06"], case["cases"])
+    res = ctx.run_vh(["c06"], case["cases"], tags=("g_bits",))
     bad = [x for x in res if not x["ok"]]
     for x in bad:
         print("REPRODUCED:", json.dumps(x)[:600])
